@@ -11,7 +11,7 @@ QB = "src/backend/query_builder.rs"
 # items that only pin a TEXT FORM (the WINDOW parentheses, ON DUPLICATE KEY UPDATE) carry C08 alone
 P = ["C08", "C01"]
 PT = ["C08"]
-OPAQUE = ["ValueTuple", "FunctionCall", "OnConflictTarget", "ColumnRef", "JoinType", "JoinOn", "ConditionHolder", "SimpleExpr", "DynIden",
+OPAQUE = ["ValueTuple", "FunctionCall", "OnConflictTarget", "JoinType", "JoinOn", "ConditionHolder", "SimpleExpr", "DynIden",
           "Value"]
 r_fmt = make_r_fmt(wmap=lambda w: w, merge=True)
 
@@ -201,6 +201,7 @@ def build(u, variant=None):
     for n in OPAQUE:
         u.emit("#[verifier::external_body]\npub struct %s { _opaque: u8 }\n" % n, kind="spec", key="R-opaque:" + n, props=P)
     u.type_item("src/query/select.rs", "enum", "UnionType", props=P, keep_derive=("Clone", "Copy"))
+    u.type_item("src/types.rs", "enum", "ColumnRef", props=P)
     u.type_item("src/types.rs", "enum", "TableRef", props=P)
     u.type_item("src/query/select.rs", "enum", "LockType", props=P, keep_derive=("Clone", "Copy"))
     u.type_item("src/query/select.rs", "enum", "LockBehavior", props=P, keep_derive=("Clone", "Copy"))
@@ -408,6 +409,22 @@ def build(u, variant=None):
         u.fn(MY, "impl QueryBuilder for MysqlQueryBuilder", "prepare_update_condition", props=P + ["C06"], key="MysqlQueryBuilder::prepare_update_condition", vpath="MysqlQueryBuilder::prepare_update_condition",
              rules=[r_dynw, make_r_sub("R-slice", r"from: &\[TableRef\]", "from: &Vec<TableRef>")],
              spec="ensures\n    // the condition is rendered exactly once: in JOIN .. ON when there are extra tables, as WHERE otherwise\n    final(sql).tr() == (if from@.len() > 0 { old(sql).tr() } else { old(sql).tr().push(Ev::Cond(\"WHERE\"@, *condition)) }),")
+        u.spec(abstract("prepare_iden", "x: &DynIden", "Ev::Iden(*x)") + abstract("prepare_column_ref", "x: &ColumnRef", "Ev::ColRef(*x)")
+               + "    // SeaRc<dyn Iden>::clone (trusted): the same identifier\n    #[verifier::external_body]\n    fn vclone_iden(x: &DynIden) -> (r: DynIden) ensures r == *x { unimplemented!() }\n"
+               + "    fn vbox_tref(b: &Box<TableRef>) -> (r: &TableRef) ensures *r == **b { &**b }\n", "render::abstract-sub-renderers(mysql update column)", props=P)
+        u.fn(MY, "impl QueryBuilder for MysqlQueryBuilder", "prepare_update_column", rename="prepare_update_column_impl", props=P, key="MysqlQueryBuilder::prepare_update_column", vpath="MysqlQueryBuilder::prepare_update_column_impl",
+             rules=[r_dynw, make_r_sub("R-slice", r"from: &\[TableRef\]", "from: &Vec<TableRef>"), make_r_sub("R-path", r"use std::ops::Deref;", ""), make_r_sub("R-path", r"table\.deref\(\)", "Self::vbox_tref(table)"),
+                    make_r_sub("R-attr", r"table\.clone\(\), column\.clone\(\)", "Self::vclone_iden(table), Self::vclone_iden(column)"),
+                    make_r_sub("R-opaque", r"column\.prepare\(sql, self\.quote\(\)\)", "self.prepare_iden(column, sql)", min_count=2)],
+             spec="""ensures
+    // UPDATE t JOIN .. SET `t`.`col` = ..: with extra tables the assigned column is qualified by the updated table (when that is a plain table name); the column itself is always written, once
+    final(sql).tr() == old(sql).tr().push(if from@.len() > 0 && *table is Some && ((*(*table)->Some_0) is Table) { Ev::ColRef(ColumnRef::TableColumn((*(*table)->Some_0)->Table_0, *column)) } else { Ev::Iden(*column) }),""")
+        u.emit("}\n")
+        u.emit("impl Dflt {\n")
+        u.fn(QB, "trait QueryBuilder", "prepare_update_column", rename="prepare_update_column_dflt", props=P, key="QueryBuilder::prepare_update_column[default]", vpath="Dflt::prepare_update_column_dflt",
+             rules=[r_dynw, make_r_sub("R-slice", r"_: &Option<Box<TableRef>>,\s*_: &\[TableRef\],", "_t: &Option<Box<TableRef>>, _f: &Vec<TableRef>,"),
+                    make_r_sub("R-opaque", r"column\.prepare\(sql, self\.quote\(\)\)", "self.prepare_iden(column, sql)")],
+             spec="ensures final(sql).tr() == old(sql).tr().push(Ev::Iden(*column)),")
         u.emit("}\n")
     if variant == "statements":
         u.emit("} // verus!\nfn main() {}\n")
